@@ -417,12 +417,12 @@ func (gi *gitlabImporter) ensurePerson(repo *cache.RepoCache, id int) (*cache.Id
 		text.CleanupOneLine(user.Name),
 		text.CleanupOneLine(user.PublicEmail),
 		text.CleanupOneLine(user.Username),
-		user.AvatarURL,
+		text.CleanupOneLine(user.AvatarURL),
 		nil,
 		map[string]string{
 			// because Gitlab
 			metaKeyGitlabId:    strconv.Itoa(id),
-			metaKeyGitlabLogin: user.Username,
+			metaKeyGitlabLogin: text.CleanupOneLine(user.Username),
 		},
 	)
 	if err != nil {
